@@ -1046,6 +1046,86 @@ def _whole_turns(d, turn):
     return (cv.re / turn).denominator == 1
 
 
+def _affine_single_symbol(d):
+    """d = c0 + c1 * s for ONE input symbol s with real rational constants -> (symbol name, c0, c1), else None"""
+    if not isinstance(d, Rat) or not d.den.is_const():
+        return None
+    dc = d.den.const_value()
+    if not dc or dc.im:
+        return None
+    name, c0, c1 = None, 0, 0
+    for (mono, ex), c in d.num.t.items():
+        if ex or c.im:
+            return None
+        if not mono:
+            c0 = c.re / dc.re
+        elif len(mono) == 1 and mono[0][1] == 1 and alg.TABLE.atoms[mono[0][0]].kind == 'sym':
+            nm = alg.TABLE.atoms[mono[0][0]].name
+            if name is not None and nm != name:
+                return None
+            name, c1 = nm, c.re / dc.re
+        else:
+            return None
+    return (name, c0, c1) if name is not None else None
+
+
+def _cond_over_domain(cond, domains):
+    """a test that compares an affine image of one input symbol with a constant, looked at over the CLOSED domain of that symbol:
+    True (holds everywhere), False (holds nowhere) or None (holds somewhere, or not of that shape)"""
+    ca = None
+    if isinstance(cond, Rat):
+        ats = cond.atoms(deep=False)
+        if len(ats) == 1 and cond.equals(Rat.atom(alg.TABLE.atoms[next(iter(ats))])):
+            ca = alg.TABLE.atoms[next(iter(ats))]
+    if ca is None or ca.kind != 'fn':
+        return None
+    if ca.name == 'not' and len(ca.args) == 1:
+        r = _cond_over_domain(ca.args[0], domains)
+        return None if r is None else (not r)
+    if ca.name not in ('lt', 'le', 'gt', 'ge', 'eq', 'ne') or len(ca.args) != 2 or not all(isinstance(x, Rat) for x in ca.args):
+        return None
+    aff = _affine_single_symbol(ca.args[0] - ca.args[1])
+    if aff is None or aff[0] not in domains:
+        return None
+    nm, c0, c1 = aff
+    lo, hi = domains[nm]
+    ends = sorted((c0 + c1 * lo, c0 + c1 * hi))
+    mn, mx = ends
+    table = {'lt': (mx < 0, mn >= 0), 'le': (mx <= 0, mn > 0), 'gt': (mn > 0, mx <= 0), 'ge': (mn >= 0, mx < 0),
+             'eq': (mn == 0 == mx, mn > 0 or mx < 0), 'ne': (mn > 0 or mx < 0, mn == 0 == mx)}
+    always, never = table[ca.name]
+    return True if always else (False if never else None)
+
+
+def prune_infeasible(v, domains):
+    """ite(c, A, B) -> B where the test c holds at NO point of the stated domain of the input it looks at (and -> A where it holds at every
+    point): `if lon1 > 180: lon1 -= 360` is the identity on longitudes in [-180, 180].  domains: symbol name -> (low, high), closed."""
+    if isinstance(v, Tup):
+        return Tup([prune_infeasible(x, domains) for x in v.items], v.is_list)
+    if isinstance(v, IteV):
+        r = _cond_over_domain(v.cond, domains)
+        if r is True:
+            return prune_infeasible(v.a, domains)
+        if r is False:
+            return prune_infeasible(v.b, domains)
+        return IteV(v.cond, prune_infeasible(v.a, domains), prune_infeasible(v.b, domains))
+    if not isinstance(v, Rat):
+        return v
+
+    def f(at):
+        if at.kind == 'fn' and at.name == 'ite' and len(at.args) == 3:
+            r = _cond_over_domain(at.args[0], domains)
+            if r is True and isinstance(at.args[1], Rat):
+                return prune_infeasible(at.args[1], domains)
+            if r is False and isinstance(at.args[2], Rat):
+                return prune_infeasible(at.args[2], domains)
+        return None
+    try:
+        return alg.map_atoms(v, f)
+    except RecursionError:
+        return v
+
+
 def strip_turn_folds(v, turn=360):
     """ite(c, X + k*turn, X) -> X at any depth (k an integer): a fold of an angle into its principal range chooses between representatives
     of the same angle.  What is compared afterwards is the angle modulo a full turn; WHICH representative is returned is a range obligation
